@@ -1070,6 +1070,21 @@ def cqm_history_body(ctx, r, B, R):
         for target in ([only] if only else st['targets']):
             vs, lin, quad, off = expr_state(c, R.ev(target))
             qt = ','.join(f'{u}:{w}:{rat(b)}' for u, w, b in quad) or '-'
+            if kind in 'RF':
+                # which branches of Expression::reindex_variables(g) this call takes on this expression
+                start = vs.index(g) if g in vs else len(vs)
+                rest = [u for u in vs if u != g]
+                ctx.tick('reindex_variables: v ' + ('present' if g in vs else 'absent'))
+                if any(u > g for u in rest[:start]):
+                    ctx.tick('reindex_variables: loop 2 re-inserts a shifted label (guard true)')
+                if any(u < g for u in rest[:start]):
+                    ctx.tick('reindex_variables: loop 2 leaves an entry (guard false)')
+                if any(u == g + 1 for u in rest[:start]):
+                    ctx.tick('reindex_variables: loop 2 meets the successor of v (label == v after the shift)')
+                if rest[start:]:
+                    ctx.tick('reindex_variables: loop 3 runs')
+                if any(u > g for u in rest):
+                    ctx.tick('reindex_variables: loop 1 erases and decrements')
             pending.append((target, f'exprstep {n} {",".join(map(str, vs)) or "-"} {rats(lin)} {qt} {rat(off)} {op}'))
 
     for k in range(nsteps + 1):
@@ -1413,6 +1428,21 @@ def case_poly(ctx, r, B):
     check_energies(ctx, r, B, R, 'p', 'BinaryPolynomial.energies', used, labels, dom, mirror,
                    oracle_src='poly_sum(t, row)', oracle=poly_sum, vartype_name=vt,
                    degenerate='no variables' if not used else 'general')
+    # the single-sample entry point `BinaryPolynomial.energy(sample)` (dict, and a 1-d labelled array)
+    row = {l: r.choice(domain(vt)) for l in labels}
+    for name, enc in (('dict', dict_lit(row, perm_of(r, labels))),
+                      ('1d+labels', f'(np.array({[row[l] for l in labels]!r}, dtype=np.int8), {labels!r})') if labels else ('dict', dict_lit(row, labels))):
+        ctx.tick(f'BinaryPolynomial.energy:{name}')
+        ctx.case(('BinaryPolynomial.energy', tuple(R.lines[4:]), enc), nontrivial=bool(used))
+        try:
+            e = F(p.energy(R.ev(enc)))
+        except Exception as ex:  # noqa
+            e = f'{type(ex).__name__}: {ex}'
+        if e != poly_sum(p, row):
+            ctx.fail('property', 'BinaryPolynomial.energy', 'no variables' if not used else f'general; encoding={name}',
+                     f'energy({enc}) = {e} but the sum of the terms gives {poly_sum(p, row)}',
+                     repro=R.script(f'row = {row!r}\nassert F(p.energy({enc})) == poly_sum(p, row), (p.energy({enc}), poly_sum(p, row))\n'))
+            break
 
 
 def sweep_permutations(ctx, B):
